@@ -2,8 +2,8 @@
 ID = 'C03'
 LEVEL = 'exploration'
 LEVEL_TEXT = ('bounded: for every DOM d of five enumerated domains - the abstract-sheet generator in several spellings, the real sheets under /repo/sheets, every DOM after <= 2 '
-              'accepted edits from an operation pool, every serialisable node (rule, declaration block, property, property value, selector list, selector, media list, media query) '
-              'set back on a fresh object, and string/URL/identifier/comment content over a critical alphabet in every context - parse(d.cssText) projects equal to d and '
+              'accepted edits from an operation pool (base sheets as written and respelled in upper case / capitalised), every serialisable node (rule, declaration block, property, property value, selector list, selector, media list, media query) '
+              'set back on a fresh object, and string/URL/identifier/comment content over a critical alphabet in every context and in every escape form (hex, backslash + character, six digits) - parse(d.cssText) projects equal to d and '
               'serialises byte-identically')
 LEVEL_NOTE = ('DOM-to-DOM comparison through the public-accessor projection of bounded/gen.py (lenient: constructs outside the abstract grammar are compared by their own text); '
               'zero lengths and the number 0 are the same value (C18); under the default preferences equivalence is modulo rules without content and @variables '
